@@ -1,6 +1,7 @@
 import E3fpVerif.DriverFprint
 import E3fpVerif.DriverDb
 import E3fpVerif.DriverMetrics
+import E3fpVerif.DriverFprinter
 open Lean E3fpVerif
 
 structure St where
@@ -14,6 +15,7 @@ def dispatch (st : St) (j : Json) : St × Json :=
       let (s, r) ← dbOp st.dbs op j
       return ({ st with dbs := s }, r)
     else if op.startsWith "met." then return (st, ← metricsOp op j)
+    else if op.startsWith "fpr." then return (st, ← fprinterOp op j)
     else .error s!"unknown op {op}" : Except String (St × Json)) with
   | .ok r => r
   | .error e => (st, Json.mkObj [("driver_error", e)])
